@@ -87,8 +87,6 @@ def do_case(case):
 def main():
     req = json.load(sys.stdin)
     res = [do_case(c) for c in req["cases"]]
-    print(json.dumps({"results": res, "shim": S.SHIM_MODE}))
-
-
+    print(json.dumps({"results": res, "shim": S.SHIM_MODE}, default=__import__("_util").jdefault))
 if __name__ == "__main__":
     main()
